@@ -67,14 +67,14 @@ type frozenHandle struct {
 	w *World
 	// real, when set, is a real file board holding the same log: reads go through
 	// FileStorage.GetMessages (the JSON lines, the scanner, the decoding)
-	real  storage.Storage
+	real storage.Storage
 	// forward: ignore lists are handed to the real board (and applied by it alone)
 	forward bool
 	log     []storage.Message
-	limit int
-	ign   map[string]struct{}
-	ignO  map[uint64]struct{}
-	sent  int
+	limit   int
+	ign     map[string]struct{}
+	ignO    map[uint64]struct{}
+	sent    int
 }
 
 func (h *frozenHandle) Send(msgs ...storage.Message) error {
